@@ -352,6 +352,7 @@ func New(o Opts) *World {
 	}
 	w.Cfg = cfg
 	w.Mem = storage.NewMemoryStore()
+	LockOrderRegister(w.Mem)
 	w.Mem.Users[UserName] = storage.MemoryUserRelation{Username: UserName, Password: UserPass}
 	if o.Mode.Hydrate {
 		// the SQL-like store: hydrates the session prototype and annotates its errors
